@@ -25,6 +25,7 @@
 
 /* ---- AEAD model ---------------------------------------------------------------------------------------------------- */
 static int aead_calls, aead_verdict;
+static uint8_t aead_icode;
 static uint8_t a_key[16], a_nonce[13], a_aad[40];
 static size_t a_keylen, a_aadlen, a_noncelen, a_taglen;
 int
@@ -39,7 +40,8 @@ coap_crypto_aead_decrypt(const coap_crypto_param_t *params, coap_bin_const_t *da
   a_aadlen = aad->length;
   for (i = 0; i < sizeof(a_aad) && i < aad->length; i++) a_aad[i] = aad->s[i];
   if (!aead_verdict) return 0;
-  for (i = 0; i + a_taglen < data->length; i++) result[i] = data->s[i];
+  /* the plaintext the peer protected: {inner code, Uri-Path "a"} - concrete layout (it steers option insertion), symbolic code */
+  result[0] = aead_icode; result[1] = 0xB1; result[2] = 'a';
   *max_result_len = data->length - a_taglen;
   return 1;
 }
@@ -161,6 +163,7 @@ VERIF_HARNESS(c14_b2_decrypt) {
     for (i = 0; i < acc_n; i++) if (acc_piv[i] == piv) replay = 1;
     aead_calls = err_calls = ack_calls = 0;
     aead_verdict = verdict;
+    aead_icode = icode;
     coap_pdu_t *out = coap_oscore_decrypt_pdu(&sess, req);
     if (kid != rid) {
       VERIF_ASSERT(out == NULL && aead_calls == 0 && err_calls == 1 && err_code == COAP_RESPONSE_CODE(401), "B2 a request for an unknown kid is refused with 4.01 before any decryption");
